@@ -160,11 +160,17 @@ func cmdUnit(args []string) int {
 		} else {
 			if !strings.Contains(key, "/") && !strings.HasPrefix(key, "(") {
 				// convenience: match by suffix
+				norm := func(s string) string { return strings.NewReplacer("(", "", ")", "", "*", "").Replace(s) }
+				lit := ""
+				if m := litRe.FindStringSubmatch(key); m != nil {
+					key, lit = m[1], "$lit"+m[2]
+				}
 				for k := range e.byKey {
-					if strings.HasSuffix(k, key) {
+					if strings.HasSuffix(norm(k), "."+key) || strings.HasSuffix(norm(k), "/"+key) {
 						key = k
 					}
 				}
+				key += lit
 			}
 			t, err := e.target(key, *sweep)
 			if err != nil {
